@@ -142,7 +142,9 @@ impl Property for C20 {
     }
     fn rule(&self) -> String {
         "generated trees x fault sites (<= 10 per tree: unreadable directories incl. the walk base, \
-         dangling links, links re-entering the parent / grand-parent / own directory) enumerated \
+         dangling links, links re-entering the parent / grand-parent / own directory, links to a \
+         directory that is made unreadable, and plain links to a readable directory elsewhere in the \
+         tree) enumerated \
          exhaustively for 0, 1 and 2 simultaneous faults plus one larger subset, x underlying walk \
          (Path::walk, Glob::walk) x both link behaviours x stacks (none, keep-everything probes, \
          discarding not / filter_entry layers); one evaluation = one walk of one placement; checked: \
